@@ -202,8 +202,8 @@ def rand_default_literal(rng: Rng, t, top: bool = True) -> str | None:
 
 
 def rand_in_type(rng: Rng, c17, names=None, max_lists: int = 2):
-    t = c17.rand_gtype(rng, names or D_IN_NAMES, max_lists)
-    return t
+    # half of the fields carry no list wrapper: the scalar / enum / input-object defaults are the point
+    return c17.rand_gtype(rng, names or D_IN_NAMES, 0 if rng.chance(1, 2) else max_lists)
 
 
 def defaults_body(fields) -> str:
